@@ -91,6 +91,10 @@ class HostPool(object):
                     yield from self._condition.wait()
 
             self.busy.add(connection)
+        except asyncio.CancelledError:
+            # The wake-up this client may have consumed goes to the next one.
+            self._condition.notify()
+            raise
         finally:
             # A cancelled wait() comes back holding the lock.
             self._condition.release()
